@@ -91,7 +91,7 @@ def run(spec):
         from vmon.util import harvest
         return harvest(c10.run(spec['c10']), ('derived_values', 'derivers_first_in_order', 'steps_once_per_phase',
                                               'step_timestep_zero', 'no_exception'), ['structural'])
-    from vmon.sensors import Mon, MonEngine, LedgerStep, Ledger, drive
+    from vmon.sensors import Mon, MonEngine, LedgerStep, LedgerDuck, Ledger, drive
     V = Viol()
     n = len(spec['deps'])
     deps = {int(k): v for k, v in spec['deps'].items()}
@@ -109,7 +109,8 @@ def run(spec):
         if spec['der_in'][k] == 'steps':
             steps[name] = LedgerStep({'sid': name})
         else:
-            processes[name] = LedgerStep({'sid': name})
+            # (every second one is a step by configuration: a Process subclass that overrides is_step())
+            processes[name] = (LedgerDuck if k % 2 else LedgerStep)({'sid': name})
         topo[name] = {'log': ('log',)}
     for k in spec['order']:
         name = 's%d' % k
